@@ -538,7 +538,7 @@ Proof.
   assert (Hnd : forall b t, NoDup t -> NoDup (expire_select b now expire_page t)).
   { intros b t Ht. rewrite bridge_expire_select. apply select_shape_nodup. exact Ht. }
   destruct (select_delete_spec (fun r => passed now r = true) _ _ Hsel Hnd _ _ _ _ _ _ Hw H) as (H1 & H2 & H3 & H4).
-  repeat split; auto. lia.
+  repeat split; auto; lia.
 Qed.
 
 (* cull(): the full statement.  vols = the page part of volume() at each evaluation of the loop test. *)
